@@ -42,7 +42,7 @@ def cases(tier, rng, boost=1):
         for form in ('per_array_narrow', 'list_of_lists'):
             yield _mk('md_wt', t, S, F, form=form, src='corpus-big')
             yield _mk('md_paths', t, S, F, form=form, src='corpus-big')
-    for lt, _N in gen.long_sets(tier):
+    for lt, _N in gen.long_sets('quick'):          # (the pathway model is quadratic in the event length: the 65 537-frame set of the thorough tier is left to C05)
         yield _mk('md_wt', lt, [0], [3, 2], src='corpus-long')
         yield _mk('md_paths', lt, [0, 1], [3], form='statetraj', src='corpus-long')
     yield _mk('md_wt', [[1, 2, 3, 1, 3], [3, 1, 2, 3]], [1], [3], src='corpus')
